@@ -140,8 +140,11 @@ class Module:
         augment(self.tree)
         from .normalize import canonical_tests
 
-        from .normalize import canonical_operands, canonical_while
+        from .normalize import canonical_operands, canonical_regions, canonical_while
 
+        for _ in range(3):  # nested regions: the walk sees a block before its rewritten children
+            if not canonical_regions(self.tree):
+                break
         canonical_while(self.tree)
         canonical_operands(self.tree)
         canonical_tests(self.tree)
